@@ -271,6 +271,13 @@ func (fp *fakePeer) inGenFrames() int {
 	return n
 }
 
+// idx: the plan index of this scripted peer (its name is F<idx>).
+func (fp *fakePeer) idx() int {
+	n := 0
+	fmt.Sscanf(fp.name, "F%d", &n)
+	return n
+}
+
 func (fp *fakePeer) stalledNow() bool {
 	if fp.in == nil || fp.in.peer == nil {
 		return false
